@@ -685,6 +685,108 @@ pub mod emptyrange {
     }
 }
 
+// ---------------------------------------------------------------- R-TAGKIND / R-SIBLING.fallback
+pub mod tagk {
+    pub fn squeeze(data: &[u8]) -> Vec<u8> {
+        data.to_ascii_uppercase()
+    }
+    pub struct OkC {
+        pub raw_mode: bool,
+    }
+    impl OkC {
+        fn tagged(tag: u8, payload: &[u8]) -> Vec<u8> {
+            let mut out = Vec::with_capacity(payload.len() + 1);
+            out.push(tag);
+            out.extend_from_slice(payload);
+            out
+        }
+        pub fn compress(&self, data: &[u8], late: bool) -> Vec<u8> {
+            if late {
+                return Self::tagged(0, data);
+            }
+            let c = squeeze(data);
+            Self::tagged(1, &c)
+        }
+    }
+}
+pub mod tagk_bad {
+    pub struct BadC {
+        pub raw_mode: bool,
+    }
+    impl BadC {
+        fn tagged(tag: u8, payload: &[u8]) -> Vec<u8> {
+            let mut out = Vec::with_capacity(payload.len() + 1);
+            out.push(tag);
+            out.extend_from_slice(payload);
+            out
+        }
+        fn frame(&self, payload: &[u8]) -> Vec<u8> {
+            let tag = if self.raw_mode { 0 } else { 1 };
+            Self::tagged(tag, payload)
+        }
+        pub fn compress(&self, data: &[u8], late: bool) -> Vec<u8> {
+            if late {
+                return self.frame(data);
+            }
+            let c = super::tagk::squeeze(data);
+            self.frame(&c)
+        }
+    }
+}
+pub mod fallback {
+    pub struct E;
+    pub struct D;
+    pub struct BadD;
+    impl E {
+        fn encode_single(&self, d: &[u8]) -> Vec<u8> {
+            d.to_vec()
+        }
+        pub fn encode_parallel(&self, d: &[u8], n: usize) -> Vec<u8> {
+            if d.len() < n {
+                return self.encode_single(d);
+            }
+            d.iter().rev().cloned().collect()
+        }
+    }
+    impl D {
+        fn decode_single(&self, d: &[u8]) -> Vec<u8> {
+            d.to_vec()
+        }
+        pub fn decode_parallel(&self, d: &[u8], n: usize) -> Vec<u8> {
+            if d.len() < n {
+                return self.decode_single(d);
+            }
+            d.iter().rev().cloned().collect()
+        }
+    }
+}
+pub mod fallback_bad {
+    pub struct E;
+    pub struct D;
+    impl E {
+        fn encode_single(&self, d: &[u8]) -> Vec<u8> {
+            d.to_vec()
+        }
+        pub fn encode_parallel(&self, d: &[u8], n: usize) -> Vec<u8> {
+            if d.len() < n {
+                return self.encode_single(d);
+            }
+            d.iter().rev().cloned().collect()
+        }
+    }
+    impl D {
+        fn decode_single(&self, d: &[u8]) -> Vec<u8> {
+            d.to_vec()
+        }
+        pub fn decode_parallel(&self, d: &[u8], n: usize) -> Vec<u8> {
+            if d.len() <= n {
+                return self.decode_single(d);
+            }
+            d.iter().rev().cloned().collect()
+        }
+    }
+}
+
 // ---------------------------------------------------------------- R-VARIANT
 pub mod variant {
     pub enum Storage {
